@@ -240,6 +240,9 @@ func (x *Exec) Verify() {
 		for _, c := range fc.Assumes {
 			if c.Src == "clock_stable" {
 				x.clockStable = true
+				t := x.e.fresh("now", "Int")
+				p.assume("(>= " + t + " " + p.clock + ")")
+				p.clock = t
 				x.e.note("assume clock_stable: one clock value per operation (" + shortTypeKey(x.e.funcKey(fn)) + ")")
 				continue
 			}
@@ -372,9 +375,18 @@ func (x *Exec) enterBlock(p *Path, b *ssa.BasicBlock, from *ssa.BasicBlock, k *C
 	if l := loops[b]; l != nil {
 		lc := x.loopContract(fr, l)
 		backEdge := from != nil && l.Body[from] && fr.inLoop[b]
+		iterCell := ""
+		for bb := range l.Body {
+			for _, in := range bb.Instrs {
+				if nx, ok := in.(*ssa.Next); ok {
+					iterCell = x.iterCell(fr, nx.Iter)
+				}
+			}
+		}
 		ctx := x.evalCtx(p, x.ctxVars(p))
 		ctx.frame = fr
 		ctx.preferFrame = true
+		ctx.iterCell = iterCell
 		if !backEdge {
 			// entry: check invariants, havoc, assume invariants
 			for _, c := range lc.Invariants {
@@ -390,6 +402,7 @@ func (x *Exec) enterBlock(p *Path, b *ssa.BasicBlock, from *ssa.BasicBlock, k *C
 			ctx = x.evalCtx(p, x.ctxVars(p))
 			ctx.frame = fr
 			ctx.preferFrame = true
+			ctx.iterCell = iterCell
 			for _, c := range lc.Invariants {
 				s, err := ctx.EvalBool(c.E)
 				if err == nil {
